@@ -190,6 +190,8 @@ type Spec struct {
 	// MinNonTrivial: the run is VACUOUS (exit 2) below this number of non-trivial cases.
 	MinNonTrivial int
 	Extra         map[string]interface{}
+	// UsesSimulatedKernel: the evidence reports the kernel conformance replay (kconf).
+	UsesSimulatedKernel bool
 	// ReplaySeq re-runs one sequential case from its recorded input; returns "" or the violation.
 	ReplaySeq func(scenario string, input json.RawMessage) string
 }
@@ -592,6 +594,18 @@ func report(spec *Spec, tier string, total *Part, wall time.Duration) int {
 	}
 	for k, v := range spec.Extra {
 		cov[k] = v
+	}
+	if spec.UsesSimulatedKernel {
+		if b, err := os.ReadFile(filepath.Join(Root, "evidence", "kconf.json")); err == nil {
+			var kc struct {
+				Traces, Steps, Mismatches int
+				Kernel                    string
+			}
+			if json.Unmarshal(b, &kc) == nil {
+				cov["kernel_conformance"] = map[string]interface{}{"traces": kc.Traces, "steps": kc.Steps, "mismatches": kc.Mismatches,
+					"note": "conformance replay of the simulated kernel (vshim/vsys) against the real kernel, cmd/kconf, run by bin/setup"}
+			}
+		}
 	}
 	ev := map[string]interface{}{
 		"property_id": spec.Property,
